@@ -458,3 +458,153 @@ func c20StepWriters(c *Ctx) {
 	}
 	r.Min("C20-T3", n, 1, "stores to RangeLimitedIterator.step")
 }
+
+// T7: the operations of a write batch take effect in the order they were added (rocksdb and pebble batches are ordered
+// logs; the btree and skiplist engines replay the operation list at commit). The radix engine applies each operation
+// to an open transaction at once, so whatever a batch-building method reads must be read through that transaction
+// (wb.writer): a reader of the last committed state (memEng.Get*NoLock, radixMemIndex.Get / NewIterator) does not see
+// the batch's earlier puts and deletes.
+func c20T7(c *Ctx) {
+	r := c.R
+	r.Clause("C20-T7", "the radix write batch reads its own writes: no reader of the committed state in a batch-building method")
+	committed := an.Call("engine.(*memEng).GetBytesNoLock", "engine.(*memEng).GetRefNoLock", "engine.(*memEng).GetBytes", "engine.(*memEng).GetRef",
+		"engine.(*memEng).ExistNoLock", "engine.(*memEng).Exist", "engine.(*memEng).GetIterator", "engine.(*memEng).NewIterator",
+		"engine.(*radixMemIndex).Get", "engine.(*radixMemIndex).NewIterator", "engine/radixdb.(*MemDB).Snapshot")
+	n := 0
+	for _, m := range []string{"Put", "Delete", "DeleteRange", "Merge"} {
+		u := c.unit("C20-T7", "engine.(*memWriteBatch)."+m)
+		if u == nil {
+			continue
+		}
+		n++
+		bad := false
+		for _, s := range u.Match(committed) {
+			// only the radix branch applies operations while the batch is being built
+			if res := flow.Implies(u.SitePC(s), c.W.Parse("engine.useMemType == engine.memTypeRadix")); res.Holds {
+				bad = true
+				r.Bad("C20-T7", u.Name+": reads the committed state while building a radix batch", u.Pos(s.Pos),
+					"call "+an.CalleeName(s)+": keys put or deleted earlier in the same batch are not seen (the other engines apply a batch in order)")
+			}
+		}
+		if !bad {
+			r.Ok("C20-T7", u.Name+": no reader of the committed state in the radix branch", u.Pos(u.Body.Pos()), "")
+		}
+	}
+	r.Min("C20-T7", n, 4, "batch-building methods of memWriteBatch")
+	// the range delete enumerates a snapshot of the batch's own transaction
+	if u := c.unit("C20-T7", "engine.(*memWriteBatch).DeleteRange"); u != nil {
+		lits, _ := c.W.PkgLits("engine", "engine.radixIterator")
+		ok := false
+		for _, l := range lits {
+			if l.Func == u.Name && l.Fields["miTxn"] == "recv.writer.Snapshot()" {
+				ok = true
+			}
+		}
+		r.Check("C20-T7", u.Name+": the range is enumerated over a snapshot of the batch's transaction", "", ok, "")
+	}
+	if u := c.unit("C20-T7", "engine.(*memWriteBatch).readPending"); u != nil {
+		r.ArgValues("C20-T7", u, an.Call("engine/radixdb.(*Txn).First"), 0, []string{"p0"}, 1)
+		rs := u.Match(an.Call("engine/radixdb.(*Txn).First"))
+		r.Check("C20-T7", u.Name+": reads through the batch's transaction", "", len(rs) == 1 && u.C.Term(rs[0].Call.Fun) == "recv.writer.First", "")
+	}
+}
+
+func init() {
+	old := registry["C20"].Run
+	registry["C20"].Run = func(c *Ctx) { old(c); c20T7(c) }
+}
+
+// T8: the in-memory radix engine stores a key under an index key. The radix iterators of the dependency return a key
+// that is a prefix of the following ones out of order, so iteration in byte order (forwards, backwards, seeks) needs
+// index keys none of which is a prefix of another, in the order of the keys. Decided on the encoder/decoder pair:
+//   - toIndexKey never appends to its parameter (the caller's key keeps its storage to itself),
+//   - it ends the key with a terminator of N >= 2 bytes whose first byte cannot stand alone inside the encoded key: a
+//     byte equal to it is followed by an escape byte, inside a loop over the key,
+//   - extractFromIndexKey strips exactly N bytes and undoes the escape.
+func c20T8(c *Ctx) {
+	r := c.R
+	r.Clause("C20-T8", "radix index keys: order preserving, no index key a prefix of another, encoder and decoder agree")
+	enc := c.unit("C20-T8", "engine/radixdb.toIndexKey")
+	dec := c.unit("C20-T8", "engine/radixdb.extractFromIndexKey")
+	if enc == nil || dec == nil {
+		return
+	}
+	// appends: none to the parameter; the terminator is the constant tail of the returned append
+	termLen, aliased, escaped := -1, false, false
+	for _, s := range enc.Sites {
+		if s.Kind != flow.SCall || s.Builtin != "append" || len(s.Call.Args) == 0 {
+			continue
+		}
+		if enc.C.Term(s.Call.Args[0]) == "p0" {
+			aliased = true
+			r.Bad("C20-T8", enc.Name+": appends to the caller's key", enc.Pos(s.Pos), "append(p0, ...) writes behind the caller's slice when it has spare capacity")
+		}
+		vals := []string{}
+		for _, a := range s.Call.Args[1:] {
+			vals = append(vals, enc.C.ConstOf(a))
+		}
+		if _, inRet := returnsCall(enc, s); inRet {
+			n := 0
+			for _, v := range vals {
+				if v == "0" {
+					n++
+				}
+			}
+			if n == len(vals) {
+				termLen = n
+			}
+		} else if len(vals) == 1 && vals[0] != "" && vals[0] != "0" {
+			// the escape byte, added when the byte just copied is the terminator byte
+			pc := enc.SitePC(s)
+			atoms := map[string]*flow.F{}
+			pc.Atoms(atoms)
+			for _, a := range atoms {
+				if a.Cmp != nil && a.Cmp.Op == "==" && (a.Cmp.LConst == "0" || a.Cmp.RConst == "0") && flow.Implies(pc, a).Holds {
+					escaped = true
+				}
+			}
+		}
+	}
+	if !aliased {
+		r.Ok("C20-T8", enc.Name+": the index key has storage of its own", enc.Pos(enc.Body.Pos()), "")
+	}
+	r.Check("C20-T8", enc.Name+": the terminator has at least two bytes and its byte is escaped inside the key", enc.Pos(enc.Body.Pos()), termLen >= 2 && escaped,
+		fmt.Sprintf("terminator bytes %d, escape of the terminator byte found: %v (a one-byte terminator makes the index key of k a prefix of the index key of k+0x00)", termLen, escaped))
+	// decoder: strips termLen bytes
+	strip := -1
+	for _, s := range dec.Sites {
+		if s.Kind != flow.SStore && s.Kind != flow.SReturn {
+			continue
+		}
+		var e ast.Expr
+		if s.Kind == flow.SStore {
+			e = s.RHS
+		} else if len(s.Ret.Results) == 1 {
+			e = s.Ret.Results[0]
+		}
+		if sl, ok := e.(*ast.SliceExpr); ok && sl.High != nil {
+			if be, ok := ast.Unparen(sl.High).(*ast.BinaryExpr); ok && be.Op.String() == "-" {
+				if v := dec.C.ConstOf(be.Y); v != "" && strings.HasPrefix(dec.C.Term(be.X), "len(") {
+					fmt.Sscan(v, &strip)
+				}
+			}
+		}
+	}
+	r.Check("C20-T8", dec.Name+": strips exactly the terminator toIndexKey appends", dec.Pos(dec.Body.Pos()), strip == termLen && strip > 0,
+		fmt.Sprintf("decoder strips %d byte(s), encoder appends %d", strip, termLen))
+}
+
+// returnsCall: the call is the operand of a return statement of u.
+func returnsCall(u *an.Unit, call *flow.Site) (*flow.Site, bool) {
+	for _, s := range u.Sites {
+		if s.Kind == flow.SReturn && len(s.Ret.Results) == 1 && ast.Unparen(s.Ret.Results[0]) == ast.Expr(call.Call) {
+			return s, true
+		}
+	}
+	return nil, false
+}
+
+func init() {
+	old := registry["C20"].Run
+	registry["C20"].Run = func(c *Ctx) { old(c); c20T8(c) }
+}
